@@ -112,7 +112,8 @@ func runImmutStream(c *ctx) error {
 	if c.thoro {
 		maxK = 5
 	}
-	all := []string{"b", "a", "d", "c", "aa"}
+	// keys of different lengths, so that "sorted as strings" and "sorted as DAG-CBOR map keys" are different orders
+	all := []string{"b", "aa", "a", "uri", "d"}
 	metaOrders := [][]string{{"z", "y", "x"}, {"x", "y", "z"}, {}}
 	n := 0
 	for k := 0; k <= maxK; k++ {
@@ -158,6 +159,14 @@ func runImmutStream(c *ctx) error {
 		}
 	}
 	c.emit("go.imm.concurrent "+hxList([]string{"a", "b", "c"})+" "+hxList([]string{"x", "y"})+" decoded", "immut.concurrent", true, "concurrent")
+	// insertion orders that are sorted as strings but not by length, and the reverse (a shortcut for "already sorted"
+	// keys must not hand the token's own slice to a second sort)
+	for _, p := range [][]string{{"headers", "uri"}, {"a", "aa", "b"}, {"aa", "b"}, {"b", "aa"}, {"uri", "headers"}, {"a", "b", "aa"}, {"body", "headers", "method", "uri"}} {
+		for _, op := range immutwork.Ops {
+			c.emit("imm.op "+op+" "+hxList(p)+" "+hxList([]string{"y", "xx"}), "immut.op:"+op, true, "op-lengths:"+op)
+		}
+		c.emit("go.imm.concurrent "+hxList(p)+" "+hxList([]string{"y", "xx"})+" constructed", "immut.concurrent", true, "concurrent")
+	}
 	return nil
 }
 
